@@ -22,6 +22,7 @@ type fsGenOpts struct {
 	symlinks bool
 	users    bool // non-admin users, chmod/chown mixes (C03)
 	views    bool // Sub views (C11)
+	enum     bool // Glob / WalkDir / existence helpers (C14)
 	files    bool // handle operations (C02)
 	unclean  bool // non-clean path forms
 	aliasing bool // bias to aliasing operands (C05)
@@ -118,6 +119,35 @@ func (g *fsGen) noRoot(p string) string {
 		return "/" + lib.Pick(g.r, fsNames)
 	}
 	return p
+}
+
+// pattern: a glob pattern built from an operand path with meta characters substituted
+func (g *fsGen) pattern() string {
+	r := g.r
+	p := g.path()
+	els := strings.Split(p, "/")
+	for i := range els {
+		if els[i] == "" {
+			continue
+		}
+		switch r.Intn(9) {
+		case 0:
+			els[i] = "*"
+		case 1:
+			els[i] = "?"
+		case 2:
+			els[i] = "[a-c]"
+		case 3:
+			els[i] = "[^a]"
+		case 4:
+			els[i] = els[i] + "*"
+		case 5:
+			els[i] = "\\" + els[i]
+		case 6:
+			els[i] = lib.Pick(r, []string{"[", "[]", "a[", "*[", "\\"})
+		}
+	}
+	return strings.Join(els, "/")
 }
 
 func lastElem(p string) string {
@@ -223,6 +253,24 @@ func (g *fsGen) next() string {
 	}
 	if g.opts.views && r.Bool(4) {
 		return pre + "sub " + h(g.path())
+	}
+	if g.opts.enum && r.Bool(45) {
+		switch r.Intn(6) {
+		case 0, 1:
+			return pre + "glob " + h(g.pattern())
+		case 2, 3:
+			var acts []string
+			for k := r.Intn(6); k > 0; k-- {
+				acts = append(acts, lib.Pick(r, []string{"c", "c", "c", "d", "a", "e"}))
+			}
+			as := "-"
+			if len(acts) > 0 {
+				as = strings.Join(acts, ",")
+			}
+			return pre + "walk " + h(g.path()) + " " + as
+		default:
+			return pre + lib.Pick(r, []string{"exists", "direxists", "isdir"}) + " " + h(g.path())
+		}
 	}
 	n := 30
 	if !g.opts.symlinks {
